@@ -1122,4 +1122,67 @@ theorem mem_collapseMax {c : Client} {q : QoS} {l : List (Client × QoS)} :
     (c, q) ∈ collapseMax l ↔ ownMax c l = some q := by
   rw [mem_iff_alGet (collapseMax_nodup l), alGet_collapseMax]
 
+
+/-! ### routing = matching (the C14 statements; `Props/C14.lean` restates them, `Props/C15.lean` uses them) -/
+
+theorem mem_specFind (s : Subs) (topic : List Level) (x : Client × QoS) :
+    x ∈ specFind s topic ↔ ∃ f, (f, x.1, x.2) ∈ s ∧ «matches» f topic = true := by
+  simp only [specFind, List.mem_map, List.mem_filter]
+  constructor
+  · rintro ⟨e, ⟨he, hm⟩, rfl⟩; exact ⟨e.1, he, hm⟩
+  · rintro ⟨f, he, hm⟩; exact ⟨(f, x.1, x.2), ⟨he, hm⟩, rfl⟩
+
+/-- **Routing = matching.** If the trie obeys the map discipline (`WF`) and stores exactly the live
+subscriptions `s` (`R`), then for every topic the hits of `findSubscribers` are exactly the
+`(client, qos)` pairs of the live subscriptions whose filter matches the topic under MQTT 3.1.1. -/
+theorem find_eq_spec {t : Trie} {s : Subs} (wf : WF t) (u : Uniq s) (r : R t s) (topic : List Level)
+    (x : Client × QoS) : x ∈ find t topic ↔ x ∈ specFind s topic := by
+  obtain ⟨c, q⟩ := x
+  rw [mem_specFind, find, mem_findLoop topic [t] (by simpa using wf)]
+  simp only [List.mem_singleton, exists_eq_left]
+  constructor
+  · rintro ⟨f, hx, hm⟩
+    refine ⟨f, ?_, hm⟩
+    rw [mem_iff_get u, ← r f c]
+    exact (mem_iff_alGet (clientsAt_nodup f t wf)).mp hx
+  · rintro ⟨f, hx, hm⟩
+    refine ⟨f, ?_, hm⟩
+    rw [mem_iff_get u, ← r f c] at hx
+    exact (mem_iff_alGet (clientsAt_nodup f t wf)).mpr hx
+
+/-! ### every history refines the abstract subscription set (restated in `Props/C14.lean`) -/
+
+/-- **Refinement over all histories.** After any finite sequence of SUBSCRIBE (several filters, any
+QoS, malformed ones included), UNSUBSCRIBE (also of filters never subscribed, malformed ones) and
+disconnect events by any clients, the trie stores exactly the abstract live-subscription set
+(`Inv.r`), keeps unique keys and has **no empty non-root node** (`Inv.wf`), the sessions cover the
+live subscriptions (`Inv.j`) and the abstract set is a map (`Inv.uniq`). -/
+theorem history_refines (ops : List Op) : Inv (run State.init ops) (specRun [] ops) :=
+  inv_run ops inv_init
+
+/-- **C14 main statement**: after any history, a message on any topic is routed to exactly the
+`(client, qos)` pairs of the live subscriptions whose filter matches it. -/
+theorem routing_after_any_history (ops : List Op) (topic : List Level) (x : Client × QoS) :
+    x ∈ find (run State.init ops).trie topic ↔ x ∈ specFind (specRun [] ops) topic :=
+  let h := history_refines ops
+  find_eq_spec h.wf h.uniq h.r topic x
+
+/-- The QoS reported for a routed client is the QoS of one of that client's own live matching
+subscriptions — for every hit, hence for whichever hit the Go map keeps; with the repaired
+`addClients` (`collapseMax`) it is the highest of them. -/
+theorem qos_is_own (ops : List Op) (topic : List Level) (c : Client) (q : QoS)
+    (h : (c, q) ∈ find (run State.init ops).trie topic) :
+    ∃ f, (f, c, q) ∈ specRun [] ops ∧ «matches» f topic = true :=
+  (mem_specFind _ _ _).mp ((routing_after_any_history ops topic (c, q)).mp h)
+
+theorem qos_is_own_max (ops : List Op) (topic : List Level) (c : Client) (q : QoS)
+    (h : (c, q) ∈ collapseMax (find (run State.init ops).trie topic)) :
+    (∃ f, (f, c, q) ∈ specRun [] ops ∧ «matches» f topic = true) ∧
+    ∀ f q', (f, c, q') ∈ specRun [] ops → «matches» f topic = true → q' ≤ q := by
+  obtain ⟨h1, h2⟩ := ownMax_some (mem_collapseMax.mp h)
+  refine ⟨qos_is_own ops topic c q h1, ?_⟩
+  intro f q' hm hmat
+  exact h2 q' ((routing_after_any_history ops topic (c, q')).mpr ((mem_specFind _ _ _).mpr ⟨f, hm, hmat⟩))
+
+
 end EgVerif.Topic
